@@ -20,6 +20,7 @@
 #include <link.h>
 #include <mutex>
 #include <pthread.h>
+#include <sched.h>
 using namespace vh;
 
 #define STR2(x) #x
@@ -121,14 +122,14 @@ static void on_violation(const std::string &w) {
 
 struct ThreadArg {
     const Case *c;
-    pthread_barrier_t *bar;
+    std::atomic<int> *go;
     uint64_t digest[2];
     uint64_t calls;
 };
 static void *worker(void *a) {
     ThreadArg *t = (ThreadArg *)a;
     apivm::g_force_op = t->c->force;
-    pthread_barrier_wait(t->bar);
+    while (!t->go->load(std::memory_order_acquire)) sched_yield();  // released together once every thread exists
     for (int r = 0; r < 2; r++) t->digest[r] = apivm::run_program(t->c->prog.data(), t->c->prog.size());
     t->calls = apivm::ST.calls;
     return nullptr;
@@ -151,17 +152,20 @@ static void check(const Case &c) {
         violSeq.assign(g_viol.begin() + (long)v0, g_viol.end());
     };
     std::vector<ThreadArg> ta((size_t)c.T);
+    int nthreads = 0;
     auto run_thr = [&]() {
         size_t v0 = g_viol.size();
-        pthread_barrier_t bar;
-        pthread_barrier_init(&bar, nullptr, (unsigned)c.T);
+        std::atomic<int> go{0};
         std::vector<pthread_t> th((size_t)c.T);
+        int made = 0;
         for (int i = 0; i < c.T; i++) {
-            ta[(size_t)i] = ThreadArg{&c, &bar, {0, 0}, 0};
-            pthread_create(&th[(size_t)i], nullptr, worker, &ta[(size_t)i]);
+            ta[(size_t)i] = ThreadArg{&c, &go, {0, 0}, 0};
+            if (pthread_create(&th[(size_t)i], nullptr, worker, &ta[(size_t)i]) != 0) break;  // resource limit: run with fewer threads
+            made++;
         }
-        for (int i = 0; i < c.T; i++) pthread_join(th[(size_t)i], nullptr);
-        pthread_barrier_destroy(&bar);
+        go.store(1, std::memory_order_release);
+        for (int i = 0; i < made; i++) pthread_join(th[(size_t)i], nullptr);
+        nthreads = made;
         violThr.assign(g_viol.begin() + (long)v0, g_viol.end());
     };
 #ifdef C18_TSAN
@@ -184,7 +188,8 @@ static void check(const Case &c) {
             vh::count_hit(*fnCounter[f]);
         }
     }
-    if (calls > 0 && c.T >= 2) NONTRIVIAL();
+    if (nthreads < c.T) COUNT("thread_creation_failed(ran with fewer threads)");
+    if (calls > 0 && nthreads >= 2) NONTRIVIAL();
     COUNT(c.src == 0 ? "src.corpus_program" : c.src == 1 ? "src.single_function_template" : "src.random_bytes");
     if (c.T >= 8) COUNT("threads>=8");
     static Counter apicalls("api_calls_sequential");
@@ -193,7 +198,7 @@ static void check(const Case &c) {
     for (auto &t : ta) thrcalls.n += t.calls;
 
     // (1) concurrent == sequential
-    for (int i = 0; i < c.T; i++)
+    for (int i = 0; i < nthreads; i++)
         for (int r = 0; r < 2; r++)
             if (ta[(size_t)i].digest[r] != seq) {
                 FAIL("concurrent-differs", "thread %d of %d (repetition %d) observed digest %016llx, the sequential execution of the same program %016llx: results depend on concurrent calls",
@@ -201,7 +206,7 @@ static void check(const Case &c) {
                 break;
             }
     // VM oracle messages that only appear under concurrency
-    if (!FAILED() && violThr.size() != violSeq.size() * (size_t)c.T * 2)
+    if (!FAILED() && violThr.size() != violSeq.size() * (size_t)nthreads * 2)
         FAIL("concurrent-differs", "the API oracle raised %zu message(s) in %d threads x 2 repetitions but %zu sequentially; first: %s", violThr.size(), c.T, violSeq.size(),
              violThr.empty() ? violSeq[0].c_str() : violThr[0].c_str());
     // (2) library image unchanged
